@@ -604,7 +604,7 @@ pub fn run<P: Prop>(tier: Tier, seed: u64) -> i32 {
 				*total.excluded_known.entry(sig).or_default() += 1;
 			}
 			Verdict::Fail(f) => {
-				println!("regression {} fails: sig={} :: {}", p.display(), f.sig, f.msg);
+				println!("regression {} fails: sig={} :: {}", p.display(), f.sig, truncate(&f.msg, 20_000));
 				violations.push((p.clone(), f));
 			}
 		}
@@ -643,8 +643,8 @@ pub fn run<P: Prop>(tier: Tier, seed: u64) -> i32 {
 								// a failure is already in hand; shrinking is taking too long: report what we have
 								if let Some((c, f)) = shared.best.lock().ok().and_then(|b| b.clone()) {
 									let p = write_replay::<P>(&c, &f, seed, "unshrunk");
-									println!("counterexample (shrinking abandoned): {}", serde_json::to_string(&c).unwrap_or_default());
-									println!("failure: sig={} :: {}", f.sig, f.msg);
+									println!("counterexample (shrinking abandoned): {}", truncate(&serde_json::to_string(&c).unwrap_or_default(), 20_000));
+									println!("failure: sig={} :: {}", f.sig, truncate(&f.msg, 20_000));
 									write_minimal_evidence::<P>(tier, seed, 1);
 									println!("VIOLATION property={} replay={}", P::ID, p.display());
 									std::process::exit(1);
@@ -817,8 +817,8 @@ pub fn run<P: Prop>(tier: Tier, seed: u64) -> i32 {
 	}
 	if let Some((case, f, tag)) = shared.violation.lock().unwrap().take() {
 		let p = write_replay::<P>(&case, &f, seed, tag);
-		println!("counterexample: {}", serde_json::to_string(&case).unwrap_or_default());
-		println!("failure: sig={} :: {}", f.sig, f.msg);
+		println!("counterexample: {}", truncate(&serde_json::to_string(&case).unwrap_or_default(), 20_000));
+		println!("failure: sig={} :: {}", f.sig, truncate(&f.msg, 20_000));
 		violations.push((p, f));
 	}
 
